@@ -452,14 +452,20 @@ def guarded(name, fn, ct, body, tr, plan, limits=None):
         if where is None:
             raise
         raise Violation('unexpected_exception',
-                        '[%s] %s: %s at %s; content-type %r body=%r transport=%r plan=%r'
+                        '[%s] %s: %s at %s; content-type %r body=%s transport=%r plan=%r'
                         % (name, type(e).__name__, str(e)[:200], where, ct, _short(body), tr, plan))
 
 
 def _short(b, n=600):
-    if isinstance(b, (bytes, bytearray)) and len(b) > n:
-        return '%r...(%d bytes)' % (bytes(b[:n]), len(b))
-    return repr(b) if not isinstance(b, str) else b
+    if isinstance(b, (bytes, bytearray)):
+        if len(b) > n:
+            return '%r...(%d bytes)' % (bytes(b[:n]), len(b))
+        return repr(bytes(b))
+    if not isinstance(b, str):
+        b = repr(b)
+    if len(b) > 2 * n:
+        return '%s...(%d chars)' % (b[:2 * n], len(b))
+    return b
 
 
 def _ctx(ct, body, tr):
@@ -510,7 +516,12 @@ def _reader_edges(body, tr):
                 acc += len(p)
             pos += len(p)
     else:
-        edges.update(range(8192, len(body), 8192))
+        # default chunk sizes: the sync reader fills 32 KiB at a time; the async reader joins events until it
+        # holds >= 8 KiB
+        ev = (tr.get('events') or [8192])[0] or 1
+        step = -(-8192 // ev) * ev
+        edges.update(range(step, len(body), step))
+        edges.update(range(32768, len(body), 32768))
     return edges
 
 
